@@ -125,6 +125,9 @@ def _divcall_guarded(P, f, tr):
 _FLIP = {"Lt": "Gt", "Gt": "Lt", "Le": "Ge", "Ge": "Le", "Eq": "Eq", "Ne": "Ne"}
 
 
+MAX_DEPTH_BOUND = 1000
+
+
 def in_front(f):
     return f.id.startswith(FRONT) or any(("<" + x) in f.id for x in FRONT)
 
@@ -550,7 +553,10 @@ def _is_depth_check(P, f):
             if rv[0] == "bin" and rv[1] in ("Gt", "Ge", "Lt", "Le"):
                 tg = fx.tags(rv[2]) | fx.tags(rv[3])
                 fields = {x.split(".")[-1] for x in tg if x.startswith("cell:") and "Parser." in x}
-                if fields & written and any(re.match(r"^const:\d+$", x) for x in tg):
+                consts = [int(x[6:]) for x in tg if re.match(r"^const:\d+$", x)]
+                # the bound must be one the stack can take: the triage runs overflowed a default thread stack between one
+                # and five thousand nested levels (recursion_observed.txt), so a limit in the thousands is no limit
+                if fields & written and consts and max(consts) <= MAX_DEPTH_BOUND:
                     cmp_ok = True
     errs = any(st[1][0] == "agg" and st[1][1] == "adt" and st[1][2] == "core::result::Result" and st[1][3] == "Err"
                for b in f.blocks if not b["cl"] for st in b["s"])
